@@ -7,7 +7,7 @@ LEVEL = "proof"
 COQ_IMPORTS = ["Tie.C07"]
 RULE = ("feature-rich references: 2D L-shapes, notched rectangles and irregular convex polygons (closed curves), 3D boxes and stepped prisms; "
         "20-60 sample points; displacements inside the basin (up to 10% of the feature size and 15 degrees; recovery is demanded for up to 5% and 6 degrees) and, for the residual-honesty "
-        "clause, also far outside it; initial guesses at the identity and within the basin; both distance modes. distinct = distinct (tag, input)")
+        "clause, also far outside it; initial guesses at the identity and within the basin; in 40% of the cases the scanned points are moved further by an arbitrary rigid motion (up to 100 feature sizes) that the guess undoes, so the guess is equally close to the answer but the points are far from the reference frame; both distance modes. distinct = distinct (tag, input)")
 TRUSTED_BASE = [
     "Coq 8.16.1 kernel and vm_compute",
     "hand-written model coq/Model/LsqProblem.v of the two LeastSquaresProblem implementations as state machines over (parameters, moved points, closest points) with the closest-point query and the parameter-to-transform map as parameters (C02, C08)",
@@ -47,7 +47,10 @@ def gen_curve(rng):
     else:
         disp = [rng.uniform(-3, 3) * s, rng.uniform(-3, 3) * s, rng.uniform(-3, 3)]
         init = [rng.uniform(-1, 1) * s, rng.uniform(-1, 1) * s, rng.uniform(-1, 1)]
-    return {"k": "c07.curve", "ref": ref, "fs": fs, "disp": disp, "init": init, "basin": basin, "kind": kind, "size": s}
+    c = {"k": "c07.curve", "ref": ref, "fs": fs, "disp": disp, "init": init, "basin": basin, "kind": kind, "size": s}
+    if rng.random() < 0.4:      # the scanned points sit far from the reference frame; the guess undoes that, so it is as close to the answer as before
+        c["pre"] = [rng.uniform(-100, 100) * s, rng.uniform(-100, 100) * s, rng.uniform(-3, 3)]
+    return c
 
 
 def box_mesh(w):
@@ -87,8 +90,11 @@ def gen_mesh(rng):
     else:
         disp = [rng.uniform(-3, 3) * s for _ in range(3)] + aa(3.0)
         init = [rng.uniform(-1, 1) * s for _ in range(3)] + aa(1.0)
-    return {"k": "c07.mesh", "verts": verts, "faces": faces, "samples": samples, "disp": disp, "init": init, "mode": rng.choice(["point", "plane"]),
-            "basin": basin, "kind": kind, "size": s, "timeout_ms": 60000}
+    c = {"k": "c07.mesh", "verts": verts, "faces": faces, "samples": samples, "disp": disp, "init": init, "mode": rng.choice(["point", "plane"]),
+         "basin": basin, "kind": kind, "size": s, "timeout_ms": 60000}
+    if rng.random() < 0.4:
+        c["pre"] = [rng.uniform(-100, 100) * s for _ in range(3)] + aa(3.0)
+    return c
 
 
 def corpus():
@@ -104,7 +110,7 @@ def generate(rng, tier):
 def tag(c, r):
     res = r.get("result", {})
     st = "err" if res.get("err") else "panic" if res.get("panic") else "ok"
-    return "%s:%s:%s:%s:%s" % (c["k"], c["kind"], c.get("mode", "-"), "basin" if c["basin"] else "far", st)
+    return "%s:%s:%s:%s%s:%s" % (c["k"], c["kind"], c.get("mode", "-"), "basin" if c["basin"] else "far", "+pre" if "pre" in c else "", st)
 
 
 def T(p):
@@ -133,7 +139,7 @@ def oracle(c, r):
         return
     res = r["result"]
     s = c["size"]
-    what = "%s alignment to a %s (size %r, %d points, displacement %r, guess %r)" % ("2D" if k == "c07.curve" else "3D " + c["mode"] + "-mode", c["kind"], s, len(r["points"]), c["disp"], c["init"])
+    what = "%s alignment to a %s (size %r, %d points, displacement %r, guess %r%s)" % ("2D" if k == "c07.curve" else "3D " + c["mode"] + "-mode", c["kind"], s, len(r["points"]), c["disp"], c["init"], ", scanned points moved further by %r and the guess composed with the inverse" % c["pre"] if "pre" in c else "")
     if res.get("panic"):
         yield ("align-panic", what + " panicked")
         return
